@@ -114,6 +114,11 @@ func (w *Worker) serialize(t types.Type, v value, out []value, depth int) []valu
 		}
 	case *types.Array:
 		a := v.(array)
+		if bw, _, ok := intInfo(ut.Elem()); ok && bw == 8 {
+			// byte arrays (hashes, keys) as their bytes: keeps the 32 extracts of a modelled digest adjacent,
+			// which the hash-equality rewriting needs to recognise H(x) = H(y) inside a serialisation
+			return append(out, a...)
+		}
 		for _, e := range a {
 			out = w.serialize(ut.Elem(), e, out, depth+1)
 		}
